@@ -206,7 +206,8 @@ class PeriodStop(Contract):
         if u == "eternity":
             return [("eternity-stop", instant_eq(r, mk_instant(I, -1, -1, -1)))]
         return [("stop-valid", cal.valid(*ymd(r))),
-                ("stop-is-last-day", ORD(r) == last_day(a["self"]))]
+                ("stop-is-last-day", ORD(r) == last_day(a["self"])),
+                ("stop-not-before-start", ORD(r) >= ORD(s))]
 
     def call_descriptor(self, I, case, a, ev):
         return {"callee": self.name, "kind": "property", "self": enc_period(ev, a["self"]), "args": []}
